@@ -3,7 +3,7 @@
  * are not forbidden domain code points (so the Standard's host parser would keep them unchanged apart from case),
  * and class 1 is exactly '/', '?', '#'. */
 void harness(void) {
-  uint8_t c;
+  NONDET(uint8_t, c);
   uint8_t k = G_k_host_class.a[c];
   __CPROVER_assert(k <= 2, "postcondition: class in {0,1,2}");
   __CPROVER_assert(k != 0 || (c >= 0x21 && c <= 0x7E && !SPEC_FORBIDDEN_DOMAIN(c)), "postcondition: class 0 => printable, not a forbidden domain code point");
